@@ -37,6 +37,17 @@ pub fn ed25519_cert(key: u8, name: &str, opts: &CertOpts) -> CertificateDer<'sta
     p.self_signed(&kp).unwrap().der().to_owned()
 }
 
+/// A self-signed Ed25519 certificate for `[key; 32]` that names no network at all:
+/// `ip_only` = false: no subject alternative name; true: one IP-address entry only.
+pub fn ed25519_cert_nameless(key: u8, ip_only: bool) -> CertificateDer<'static> {
+    let kp = rcgen::KeyPair::from_der_and_sign_algo(&ed25519_pkcs8(key), &rcgen::PKCS_ED25519).unwrap();
+    let mut p = rcgen::CertificateParams::new(Vec::<String>::new()).unwrap();
+    if ip_only {
+        p.subject_alt_names = vec![rcgen::SanType::IpAddress(std::net::IpAddr::V4(std::net::Ipv4Addr::new(127, 0, 0, 1)))];
+    }
+    p.self_signed(&kp).unwrap().der().to_owned()
+}
+
 /// A self-signed ECDSA P-256 certificate with a fresh key: (certificate, PKCS#8 key).
 pub fn ecdsa_cert(name: &str) -> (CertificateDer<'static>, PrivateKeyDer<'static>) {
     let kp = rcgen::KeyPair::generate_for(&rcgen::PKCS_ECDSA_P256_SHA256).unwrap();
